@@ -290,6 +290,9 @@ def parEngine (c i : List String) : Option Res := do
             s!"C04:resized the parallel solver {status}s: with_nb_threads({threads}) after construction with {builtWith} threads — a worker indexes upper_bounds out of range, panics with `ongoing` raised and the others wait for ever"
           else if cfg.kind == 2 && !(allImpacted fam) then s!"C15:pooled-long-arcs parallel run ends in {status}"
           else s!"C04:the parallel run ends in {status} ({ncrash} crashed workers)") :: fails
+        -- a run that never reports (or loses a worker) does not report the optimum either
+        if !(cfg.kind == 2 && !(allImpacted fam)) then
+          fails := s!"C03:maximize() does not report: the parallel run ends in {status} ({ncrash} crashed workers)" :: fails
       match outT with
       | [ex, bv, lb, ub, explored, _polls] =>
         let lb ← int? lb; let ub ← int? ub; let explored ← nat? explored
@@ -328,7 +331,8 @@ def parstressEngine (c i : List String) : Option Res := do
       let pf := phiSolver fam (cfg.kind == 2) cfg.primal (ex == "0") (ex == "1") value lb ub sol
       let pf := pf.map (fun s => if s.startsWith "C01:" then "C03:" ++ (s.drop 4).toString else s)
       pure { agree := true, phi := pf.isEmpty, model := "(phi only)", note := failNote pf }
-    | [["panic"]] => pure { agree := true, phi := false, model := "-", note := "F:C04 [C04:the parallel solver panics in a free-running stress run]" }
+    | [["panic"]] => pure { agree := true, phi := false, model := "-", note := "F:C04 [C04:the parallel solver panics in a free-running stress run] F:C03 [C03:maximize() does not report: panic in a free-running stress run]" }
+    | [["hang"]] => pure { agree := true, phi := false, model := "-", note := "F:C04 [C04:maximize() did not return within the watchdog delay in a free-running stress run (deadlock or livelock)] F:C03 [C03:maximize() does not report: no return within the watchdog delay in a free-running stress run]" }
     | _ => none
   | _ => none
 
